@@ -1,8 +1,8 @@
 CONSTANTS
   Programs <- ProgsLit
   GenTs <- Gts
-  SplitRemove = TRUE
-  ClearSnapshot = FALSE
+  SplitRemove = FALSE
+  ClearSnapshot = TRUE
   EmitOneIn = 1
 SPECIFICATION Spec
 CHECK_DEADLOCK FALSE
